@@ -166,6 +166,8 @@ func ruleH1x(c *Ctx) {
 								}
 							} else if !strings.Contains(c.term(x.High), "binary.Put") {
 								probs = append(probs, "the hashed prefix length is not derived from the encoder's result")
+							} else if why := c.prefixMayTruncate(x.High, call); why != "" {
+								probs = append(probs, why)
 							}
 						}
 						visit(x, d+1)
@@ -189,6 +191,44 @@ func ruleH1x(c *Ctx) {
 	if n < 2 {
 		c.undecided("varint sites in identity methods", token.NoPos, "only %d found", n)
 	}
+}
+
+// prefixMayTruncate: the length hv of the hashed prefix is built from the encoder's result n and constants; it must
+// never be smaller than n. phi(n, K) is fine when the K edge is taken under n < K (a lower bound: max), wrong when it
+// is taken under n > K (an upper bound: min cuts long encodings); the builtins max/min likewise.
+func (c *Ctx) prefixMayTruncate(hv ssa.Value, enc *ssa.Call) string {
+	switch x := hv.(type) {
+	case *ssa.Call:
+		if isBuiltinCall(&x.Call, "min") {
+			return "the hashed prefix length is min(…) of the encoder's result and a constant: encodings longer than the constant are cut and large magnitudes collide"
+		}
+	case *ssa.Phi:
+		for i, e := range x.Edges {
+			k, isC := constInt(e)
+			if !isC {
+				continue
+			}
+			pb := x.Block().Preds[i]
+			facts := c.fi(x.Parent()).factsAt(pb)
+			if iff, ok := pb.Instrs[len(pb.Instrs)-1].(*ssa.If); ok && len(pb.Succs) == 2 && pb.Succs[0] != pb.Succs[1] {
+				facts = append(append([]Fact{}, facts...), expandFact(Fact{iff.Cond, pb.Succs[0] == x.Block()})...)
+			}
+			for _, ft := range facts {
+				bo, ok := ft.Cond.(*ssa.BinOp)
+				if !ok || bo.X != ssa.Value(enc) {
+					continue
+				}
+				if kk, isK := constInt(bo.Y); !isK || kk != k {
+					continue
+				}
+				// the constant replaces n on this edge: n > K (or >=) true, or n <= K (or <) false
+				if ((bo.Op == token.GTR || bo.Op == token.GEQ) && ft.Truth) || ((bo.Op == token.LEQ || bo.Op == token.LSS) && !ft.Truth) {
+					return fmt.Sprintf("the hashed prefix length is capped at %d when the encoder wrote more: encodings longer than %d bytes are cut and large magnitudes collide", k, k)
+				}
+			}
+		}
+	}
+	return ""
 }
 
 // ---- H3x a pooled buffer is not released before its last use -----------------------------------------------
